@@ -353,6 +353,16 @@ func (r *Resolver) Resolve(ctx context.Context, name string) (ResolveResult, err
 		svcbName = fmt.Sprintf("_%s.%s", scheme, name)
 	}
 
+	// The _port and _scheme labels are subject to the same limits.
+	if len(svcbName) > 255 {
+		return result, ErrInvalidName
+	}
+	for _, p := range strings.Split(svcbName, ".") {
+		if len(p) > 63 {
+			return result, ErrInvalidName
+		}
+	}
+
 	// First, resolve HTTPS Aliases.
 	want := svcbName
 	seen := make(map[string]bool)
